@@ -1150,7 +1150,7 @@ impl TDigestView<'_> {
         if weight < 1. {
             return Some(self.min);
         }
-        if weight > centroids_weight - 1. {
+        if weight >= centroids_weight - 1. {
             return Some(self.max);
         }
         let first_weight = self.centroids[0].weight();
